@@ -35,6 +35,19 @@ ASSUMPTIONS = [
 ]
 
 
+WINDOW_ATTR = 'self._search_buffer_length'
+
+
+def window_attr(repo):
+    """the attribute Data._compile fills from the search_buffer_length option"""
+    comp = repo.cls('Data').methods.get('_compile')
+    if comp is not None:
+        for n in ast.walk(comp.node):
+            if isinstance(n, ast.Assign) and isinstance(n.targets[0], ast.Attribute) and canon(n.value) == "bisturi_conf.get('search_buffer_length')":
+                return canon(n.targets[0])
+    return WINDOW_ATTR
+
+
 def gtexts(p):
     out = set()
     for g, pol in p.guards:
@@ -194,10 +207,11 @@ def classify_marker(ctx, ci, fi, regex):
         windowed = buf.slice.upper is not None
         if windowed:
             wform = lin_sub(lin(buf.slice.upper), lin(buf.slice.lower))
-            if wform != {'self._search_buffer_length': 1}:
+            WA = window_attr(repo)
+            if wform != {WA: 1}:
                 ctx.violation(rule_c, fi, stc, 'the search window is not offset + search_buffer_length', s.lineno, clause='c')
                 continue
-            if 'self._search_buffer_length' not in gt:
+            if WA not in gt:
                 ctx.violation(rule_c, fi, stc, 'the windowed search is not guarded by the configured window', s.lineno, clause='c')
                 continue
             seen_window = True
@@ -307,11 +321,13 @@ def check_selection(ctx):
             continue
         kinds.setdefault(k, set()).add(target)
     # the search window is the class-level option
-    win = [e for p in paths for e in p.effects if e.kind == 'store_attr' and canon(e.obj) == 'self' and e.name == '_search_buffer_length']
-    if win and all(canon(e.value) == "bisturi_conf.get('search_buffer_length')" for e in win):
-        ctx.holds(rule, comp, "self._search_buffer_length = bisturi_conf.get('search_buffer_length')", 'the configured search window', win[0].lineno, clause='a')
+    win = [e for p in paths for e in p.effects if e.kind == 'store_attr' and canon(e.obj) == 'self' and canon(e.value) == "bisturi_conf.get('search_buffer_length')"]
+    global WINDOW_ATTR
+    if win:
+        WINDOW_ATTR = 'self.' + win[0].name
+        ctx.holds(rule, comp, "self.<window> = bisturi_conf.get('search_buffer_length')", 'the configured search window', win[0].lineno, clause='a')
     else:
-        ctx.violation(rule, comp, '_search_buffer_length = %s' % sorted({canon(e.value) for e in win}), "the search window is not the class option search_buffer_length", comp.node.lineno, clause='a')
+        ctx.violation(rule, comp, 'search window', "no attribute is filled from the class option search_buffer_length: the configured search window is ignored", comp.node.lineno, clause='a')
     want = {'int', 'field', 'callable', 'expression', 'bytes-marker', 'regex-marker'}
     missing = want - set(kinds)
     if missing:
